@@ -250,8 +250,11 @@ def decl_order(F, rep):
                 value_hids = {b["hid"] for b in pat_bindings(alt) if b["name"] == "value"}
                 on_value = scr.get("k") == "Field" and scr["name"] == "kind" and \
                     any(x.get("hid") in value_hids for x in nodes(scr["e"], "Path"))
-                only_fn = any((pat_variant(a_) or "").endswith("ExpressionKind::Function")
-                              for arm_ in c2["arms"] for a_ in pat_alternatives(arm_["pat"]))
+                # only a function literal evaluates nothing when it is defined: every other kind (a blob literal with methods
+                # included) reads variables at once and would see the still-nil binder instead of the one it shadows
+                yes_alts = [pat_variant(a_) for arm_ in c2["arms"] for a_ in pat_alternatives(arm_["pat"])
+                            if pat_variant(a_) is not None]
+                only_fn = bool(yes_alts) and all(v.endswith("ExpressionKind::Function") for v in yes_alts)
                 is_fn_test = on_value and only_fn
             fn_branch, val_branch = second["t"], second.get("e")
 
